@@ -42,7 +42,9 @@ MkInput(ptr, recv, n, bad, ret, addr, second, single, ek, eaddr) ==
               EXCEPT !.singleton = IF single = "type" THEN 65536 ELSE None]
       E == [EnumDef("E", "pub", TNm("u32"), <<Variant("A", NumNone, FALSE), Variant("B", NumNone, FALSE)>>)
               (* "enumnc": the singleton enum is not declared copyable *)
-              EXCEPT !.singleton = IF single \in {"enum", "enumnc"} THEN 131072 ELSE None, !.copyable = single # "enumnc"]
+              (* "enumneg": a negative singleton address cannot be addressed *)
+              EXCEPT !.singleton = IF single \in {"enum", "enumnc"} THEN 131072 ELSE IF single = "enumneg" THEN 0 - 8 ELSE None,
+                     !.copyable = single # "enumnc"]
       f1 == F("f", recv, n, bad, ret, addr)
       f2 == CASE second = "distinct"  -> <<F("h", "mut", 1, 0, "none", 393216)>>
               [] second = "dup"       -> <<F("f", "mut", 1, 0, "none", 393216)>>
@@ -77,12 +79,13 @@ MkInput(ptr, recv, n, bad, ret, addr, second, single, ek, eaddr) ==
 
 MCInit ==
   /\ \E ptr \in Ptrs, recv \in Recvs, n \in 0..MaxP, bad \in Bad, ret \in Rets, addr \in Addrs,
-        second \in Seconds, single \in Singles, ek \in EvalKinds, eaddr \in {None, 196608, 4096} :
+        second \in Seconds, single \in Singles, ek \in EvalKinds, eaddr \in {None, 196608, 4096, 0 - 16} :
         /\ bad <= n
         (* 4096 is also the address of the first of two extern values: two views of one location *)
         /\ (eaddr = 4096 => ek = "two")
         /\ (ek = "none" => eaddr = None)
         /\ (ek = "readdr" => eaddr = 196608)
+        /\ (eaddr = 0 - 16 => ek = "scalar")
         (* keep the product small: vary the accessor side only with the simplest function *)
         /\ ((single # "none" \/ ek # "none") => (n = 0 /\ ret = "none" /\ second = "none" /\ recv = "const" /\ addr = 327680))
         /\ input = MkInput(ptr, recv, n, bad, ret, addr, second, single, ek, eaddr)
@@ -106,7 +109,9 @@ FnBad(f) ==
   \/ \E i \in DOMAIN f.args : f.args[i].k = "named" /\ DTy(input, M, f.args[i].ty) = TNone
   \/ (f.ret # TNone /\ DTy(input, M, f.ret) = TNone)
 
-EvalBad == \E i \in DOMAIN M.evals : ~IsSome(M.evals[i].addr) \/ DTy(input, M, M.evals[i].ty) = TNone
+(* an address is a location: a negative one (on an extern value, on an enum singleton) addresses nothing *)
+EvalBad == \/ \E i \in DOMAIN M.evals : ~IsSome(M.evals[i].addr) \/ M.evals[i].addr < 0 \/ DTy(input, M, M.evals[i].ty) = TNone
+           \/ \E i \in DOMAIN M.defs : IsSome(M.defs[i].singleton) /\ M.defs[i].singleton < 0
 
 MustReject == (\E i \in DOMAIN ImplFuncsAll : FnBad(ImplFuncsAll[i])) \/ EvalBad \/ OrphanImpl
 
